@@ -52,7 +52,7 @@ func Profile() *world.Profile {
 	}
 	p.Ops = make([]int, world.NumOps)
 	for i, w := range map[int]int{world.OpYield: 2, world.OpWriteHeader: 2, world.OpWrite: 3, world.OpFlush: 1, world.OpNext: 5, world.OpNextSwallow: 1,
-		world.OpSetHeader: 1, world.OpStatus: 1, world.OpSeeSvc: 1, world.OpMapExtra: 1, world.OpSeeExtra: 1, world.OpSetCL: 1, world.OpSetCT: 1, world.OpHijack: 1, world.OpBefore: 1} {
+		world.OpSetHeader: 1, world.OpStatus: 1, world.OpSeeSvc: 1, world.OpMapExtra: 1, world.OpSeeExtra: 1, world.OpSetCL: 1, world.OpSetCT: 1, world.OpHijack: 1, world.OpBefore: 1, world.OpReplaceCtx: 1, world.OpExpireCtx: 1, world.OpCancel: 1} {
 		p.Ops[i] = w
 	}
 	return p
